@@ -13,6 +13,9 @@
 //!   setmaxlease <us|->  | reset | setnaks <0|1> | setretry disc=.. req=.. retries=.. minrenew=.. maxrenew=..
 //!   setports <server> <client> | setrxbuf | setopts <-|kind:len,kind:len..> | setprl <hex|->   (run-time setters; `rejected` is
 //!                                  printed when the setter refuses the value: data longer than 255 octets)
+//!   header udp=1: a UDP socket (port 9000) is added BEFORE the DHCP socket; `usend len=<n>` queues a datagram to
+//!                                  255.255.255.255:9 on it, `budget <n|->` = frames the device accepts per poll (QDev.tx_budget);
+//!                                  such cases are evaluated by the oracle only (`run` and the model driver skip them)
 //!   header rxck=0: the device announces Tx-only IPv4/UDP checksum capabilities (no verification on receive)
 //! Observation lines (per poll): `tx dhcp …` / `tx arp …` / `tx other …` for every transmitted frame, `ev …`, `pollat …`;
 //! `PANIC` if Interface::poll panicked (the case stops there).
@@ -109,6 +112,11 @@ pub struct TxDhcp {
 
 #[derive(Default, Clone, Debug)]
 pub struct StepObs {
+    /// device tx budget in force for this poll (None = unlimited), UDP datagram bytes queued on the socket in front of the
+    /// DHCP socket before the poll, and whether IPv4 fragments of an earlier datagram were still unsent before the poll
+    pub budget: Option<usize>,
+    pub udp_queued: usize,
+    pub frag_pending: bool,
     pub n_other: usize,
     pub oversize: usize,
     pub lines: Vec<String>,
@@ -154,6 +162,10 @@ pub struct Sim {
     pub last_pollat: Option<i64>,
     pub max_lease: Option<Duration>,
     pub dead: bool,
+    /// coexistence scenarios: a UDP socket added BEFORE the DHCP socket, per-poll device tx budget
+    uh: Option<SocketHandle>,
+    budget: Option<usize>,
+    frag_pending: bool,
 }
 
 impl Sim {
@@ -201,8 +213,18 @@ impl Sim {
             s.set_ports(sp, cp);
         }
         let mut sockets = SocketSet::new(vec![]);
+        let uh = if c.get_i("udp", 0) != 0 {
+            use smoltcp::socket::udp;
+            let rxb = udp::PacketBuffer::new(vec![udp::PacketMetadata::EMPTY; 8], vec![0u8; 4096]);
+            let txb = udp::PacketBuffer::new(vec![udp::PacketMetadata::EMPTY; 8], vec![0u8; 16384]);
+            let mut u = udp::Socket::new(rxb, txb);
+            u.bind(9000).unwrap();
+            Some(sockets.add(u))
+        } else {
+            None
+        };
         let h = sockets.add(s);
-        Sim { dev, iface, sockets, h, apply: c.get_i("apply", 1) != 0, now: 0, cur_xid: 1, prev_xid: None, last_pollat: None, max_lease: ml, dead: false }
+        Sim { dev, iface, sockets, h, apply: c.get_i("apply", 1) != 0, now: 0, cur_xid: 1, prev_xid: None, last_pollat: None, max_lease: ml, dead: false, uh, budget: None, frag_pending: false }
     }
 
     pub fn rx_pending(&self) -> usize {
@@ -375,12 +397,22 @@ impl Sim {
             EthernetProtocol::Ipv4 => {
                 let caps = ChecksumCapabilities::default();
                 let Ok(p) = Ipv4Packet::new_checked(e.payload()) else { return other(o, "ip") };
+                if p.more_frags() || p.frag_offset() != 0 {
+                    // IPv4 fragment of a datagram of the UDP socket (coexistence scenarios)
+                    self.frag_pending = p.more_frags();
+                    o.lines.push(format!("tx frag off={} mf={} len={}", p.frag_offset(), p.more_frags() as u8, f.len()));
+                    return;
+                }
                 let Ok(ir) = Ipv4Repr::parse(&p, &caps) else { return other(o, "ipparse") };
                 if ir.next_header != IpProtocol::Udp {
                     return other(o, "proto");
                 }
                 let Ok(u) = UdpPacket::new_checked(p.payload()) else { return other(o, "udp") };
                 let Ok(ur) = UdpRepr::parse(&u, &ir.src_addr.into(), &ir.dst_addr.into(), &caps) else { return other(o, "udpparse") };
+                if self.uh.is_some() && ur.src_port == 9000 {
+                    o.lines.push(format!("tx udp len={}", u.payload().len()));
+                    return;
+                }
                 let Ok(dp) = DhcpPacket::new_checked(u.payload()) else { return other(o, "dhcp") };
                 let Ok(d) = DhcpRepr::parse(&dp) else { return other(o, "dhcpparse") };
                 let kind = match d.message_type {
@@ -453,6 +485,12 @@ impl Sim {
         o.polled = true;
         o.t = t;
         let ts = Instant::from_micros(t);
+        self.dev.tx_budget = self.budget;
+        o.budget = self.budget;
+        o.frag_pending = self.frag_pending;
+        if let Some(uh) = self.uh {
+            o.udp_queued = self.sockets.get::<smoltcp::socket::udp::Socket>(uh).send_queue();
+        }
         let rx_before = self.dev.n_rx;
         let r = {
             let (iface, dev, sockets) = (&mut self.iface, &mut self.dev, &mut self.sockets);
@@ -589,6 +627,20 @@ impl Sim {
                 let (sp, cp): (u16, u16) = (w[1].parse().unwrap(), w[2].parse().unwrap());
                 self.sock().set_ports(sp, cp);
             }
+            "usend" => {
+                // queue a datagram of <len> octets to 255.255.255.255:9 on the UDP socket in front of the DHCP socket
+                let len: usize = m["len"].parse().unwrap();
+                if let Some(uh) = self.uh {
+                    let u = self.sockets.get_mut::<smoltcp::socket::udp::Socket>(uh);
+                    let data: Vec<u8> = (0..len).map(|i| i as u8).collect();
+                    let r = u.send_slice(&data, (IpAddress::v4(255, 255, 255, 255), 9));
+                    o.lines.push(format!("usend {}", if r.is_ok() { "ok" } else { "err" }));
+                }
+            }
+            "budget" => {
+                // frames the device accepts per Interface::poll from now on ("-" = unlimited)
+                self.budget = if w[1] == "-" { None } else { Some(w[1].parse().unwrap()) };
+            }
             "setrxbuf" => {
                 let b: &'static mut [u8] = Box::leak(vec![0u8; 1024].into_boxed_slice());
                 self.sock().set_receive_packet_buffer(b);
@@ -639,6 +691,11 @@ impl Sim {
 
 fn run_case(c: &Case, out: &mut dyn Write) {
     writeln!(out, "case {}", c.id).unwrap();
+    if c.get_i("udp", 0) != 0 {
+        // coexistence scenarios (second socket, device back-pressure) are outside the model: oracle only
+        writeln!(out, "coexist: implementation-side oracle only").unwrap();
+        return;
+    }
     let mut sim = Sim::new(c);
     for op in &c.ops {
         let o = sim.step(op);
@@ -689,6 +746,8 @@ struct Oracle {
     silenced_until: i64,
     first_poll: bool,
     arith: bool,
+    /// coexistence scenario (a UDP socket in front of the DHCP socket, limited device budget): only the lease clauses apply
+    coexist: bool,
     rxck: bool,
     opts: Vec<(u8, Vec<u8>)>,
     prl: Vec<u8>,
@@ -728,6 +787,7 @@ impl Oracle {
             silenced_until: i64::MIN,
             first_poll: true,
             arith: c.get_i("arith", 0) != 0,
+            coexist: c.get_i("udp", 0) != 0,
             rxck: c.get_i("rxck", 1) != 0,
             opts: vec![],
             prl: vec![1, 3, 6],
@@ -894,18 +954,32 @@ impl Oracle {
                 }
             }
         }
-        let in_silence = t < self.silenced_until;
+        let in_silence = !self.coexist && t < self.silenced_until;
+        // known finding d14c: the device hands out no tx token, a socket in front of the DHCP socket has a datagram to send
+        // (and is not merely waiting for the fragmenter): socket_egress stops at that socket (`Exhausted => break`) and the
+        // DHCP socket's dispatch - the only place where expiry is handled - is not run
+        let exhausted_ahead = self.coexist && o.budget == Some(0) && o.udp_queued > 0 && !o.frag_pending;
         // --- lease clauses
         if self.configured {
             let exp = self.lease.as_ref().map(|l| l.expires).unwrap_or(i128::MAX);
             if t as i128 >= exp {
-                let cls = if in_silence { "expiry-postponed-by-neighbor-silence" } else { "configured-past-expiry" };
+                let cls = if exhausted_ahead {
+                    "expiry-postponed-by-exhausted-device"
+                } else if in_silence {
+                    "expiry-postponed-by-neighbor-silence"
+                } else {
+                    "configured-past-expiry"
+                };
                 self.fail(cls, k, op, format!("poll at t={} >= expiry {} did not report Deconfigured", t, exp));
             }
             match o.pollat {
                 Some(p) if (p as i128) <= exp => {}
                 p => {
-                    let cls = if in_silence || p.map(|p| p <= self.silenced_until.max(t.saturating_add(SILENT_US))).unwrap_or(false) && self.recent_silent_attempt(t, o) {
+                    let cls = if exhausted_ahead {
+                        "expiry-postponed-by-exhausted-device"
+                    } else if self.coexist {
+                        "pollat-beyond-expiry"
+                    } else if in_silence || p.map(|p| p <= self.silenced_until.max(t.saturating_add(SILENT_US))).unwrap_or(false) && self.recent_silent_attempt(t, o) {
                         "expiry-postponed-by-neighbor-silence"
                     } else {
                         "pollat-beyond-expiry"
@@ -915,7 +989,7 @@ impl Oracle {
             }
         }
         // --- transmissions
-        if o.n_other > 0 {
+        if o.n_other > 0 && !self.coexist {
             self.fail("emitted-frame-unparsable", k, op, format!("{} transmitted frame(s) do not parse as ARP or DHCP-over-UDP/IPv4", o.n_other));
         }
         if o.oversize > 0 {
@@ -968,6 +1042,12 @@ impl Oracle {
             self.bump("silenced_attempts");
         }
         // --- solicitation while unconfigured
+        if self.coexist {
+            // solicitation / idle-poll clauses presuppose a device that accepts frames and no competing socket
+            self.first_poll = false;
+            self.prev_pollat = o.pollat;
+            return;
+        }
         if !self.configured && !was_configured && !self.first_poll {
             let due = self.prev_pollat.map(|p| p <= t).unwrap_or(false);
             if due && o.tx.is_empty() {
@@ -1335,6 +1415,121 @@ fn gen_case(rng: &mut Rng, id: String, tier: &str) -> Case {
     c
 }
 
+
+/// run the oracle over [cases]; at most 2 failing cases are reported per class (FAILCASE block + FAIL line, same order)
+fn report_oracle(cases: &[Case], nb: usize, out: &mut dyn Write) {
+    let mut fails = vec![];
+    let mut stats = BTreeMap::new();
+    let mut per_class: BTreeMap<String, usize> = BTreeMap::new();
+    for c in cases {
+        let mut f1 = vec![];
+        oracle_case(c, &mut f1, &mut stats);
+        let mut seen: Vec<String> = vec![];
+        for f in f1 {
+            let cls = f.split("::").next().unwrap().trim().to_string();
+            if seen.contains(&cls) {
+                continue;
+            }
+            seen.push(cls.clone());
+            let n = per_class.entry(cls).or_default();
+            *n += 1;
+            if *n <= 2 {
+                writeln!(out, "FAILCASE").unwrap();
+                c.write(out);
+                fails.push(f);
+            }
+        }
+    }
+    for f in &fails {
+        writeln!(out, "FAIL {}", f).unwrap();
+    }
+    let st: Vec<String> = stats.iter().map(|(k, v)| format!("{}:{}", jstr(k), v)).collect();
+    writeln!(out, "STATS {{\"cases\":{},\"builtin_witnesses\":{},{}}}", cases.len(), nb, st.join(",")).unwrap();
+}
+
+/// Coexistence scenario: the client binds a short lease (ARP for the server answered, so renewals go out), a UDP socket that
+/// sits BEFORE the DHCP socket in the socket set gets small and over-MTU (3 fragments at MTU 576) datagrams queued, and the
+/// device accepts 0 / 1 / 2 / any number of frames per poll around the lease-expiry instant.
+fn gen_coexist(rng: &mut Rng, id: String) -> Case {
+    let mut c = Case { id, cfg: vec![], ops: vec![] };
+    for (k, v) in [("apply", "1".to_string()), ("seed", rng.below(1 << 40).to_string()), ("udp", "1".to_string()), ("mtu", "590".to_string())] {
+        c.cfg.push((k.to_string(), v));
+    }
+    let mut sim = Sim::new(&c);
+    let lease: i64 = *rng.pick(&[2i64, 3, 5, 10]);
+    let mut ops: Vec<String> = vec![];
+    let mut t: i64 = rng.range(0, 2_000_000);
+    let go = |sim: &mut Sim, ops: &mut Vec<String>, op: String| {
+        sim.step(&op);
+        ops.push(op);
+    };
+    go(&mut sim, &mut ops, format!("poll t={}", t));
+    go(&mut sim, &mut ops, format!("srv kind=offer xid=same lease={}", lease));
+    t += rng.range(0, 300_000);
+    go(&mut sim, &mut ops, format!("poll t={}", t));
+    go(&mut sim, &mut ops, format!("srv kind=ack xid=same lease={}", lease));
+    t += rng.range(0, 300_000);
+    go(&mut sim, &mut ops, format!("poll t={}", t));
+    let expiry = t + lease * 1_000_000;
+    go(&mut sim, &mut ops, "arp spa=10.0.0.1".to_string());
+    t += rng.range(1, 1000);
+    go(&mut sim, &mut ops, format!("poll t={}", t));
+    // the lease runs: polls at the deadlines (renewal and rebinding attempts that nobody answers), some UDP traffic
+    while rng.chance(2, 3) {
+        let next = sim.last_pollat.unwrap_or(t).max(t);
+        if next >= expiry - 1_100_000 {
+            break;
+        }
+        t = next;
+        if rng.chance(1, 3) {
+            go(&mut sim, &mut ops, format!("usend len={}", rng.range(1, 400)));
+        }
+        go(&mut sim, &mut ops, format!("poll t={}", t));
+    }
+    // the device stalls shortly before expiry
+    let variant = rng.below(3);
+    t = (expiry - *rng.pick(&[1i64, 1000, 400_000, 900_000])).max(t);
+    let budget = match variant {
+        0 => "0",
+        1 => "1",
+        _ => *rng.pick(&["0", "1", "2", "-"]),
+    };
+    if variant == 1 || rng.chance(1, 2) {
+        // an over-MTU datagram (3 fragments) followed by another datagram: the fragmenter stays busy across polls
+        go(&mut sim, &mut ops, format!("budget {}", if variant == 1 { "1" } else { budget }));
+        go(&mut sim, &mut ops, format!("usend len={}", rng.range(1150, 1400)));
+        go(&mut sim, &mut ops, format!("usend len={}", rng.range(1, 1400)));
+        go(&mut sim, &mut ops, format!("poll t={}", t));
+        go(&mut sim, &mut ops, format!("budget {}", budget));
+    } else {
+        go(&mut sim, &mut ops, format!("budget {}", budget));
+        for _ in 0..rng.range(1, 3) {
+            go(&mut sim, &mut ops, format!("usend len={}", rng.range(1, 500)));
+        }
+        if rng.chance(1, 2) {
+            go(&mut sim, &mut ops, format!("poll t={}", t));
+        }
+    }
+    // polls at and after expiry
+    let mut tt = expiry + *rng.pick(&[0i64, 0, 0, 1, 1000]);
+    for _ in 0..rng.range(1, 4) {
+        tt = tt.max(t);
+        go(&mut sim, &mut ops, format!("poll t={}", tt));
+        if variant == 2 && rng.chance(1, 3) {
+            go(&mut sim, &mut ops, format!("budget {}", *rng.pick(&["0", "1", "2", "-"])));
+        }
+        if rng.chance(1, 4) {
+            go(&mut sim, &mut ops, format!("usend len={}", rng.range(1, 1400)));
+        }
+        tt += *rng.pick(&[1i64, 1000, 100_000, 700_000]);
+    }
+    go(&mut sim, &mut ops, "budget -".to_string());
+    go(&mut sim, &mut ops, format!("poll t={}", tt));
+    go(&mut sim, &mut ops, format!("poll t={}", tt + 1));
+    c.ops = ops;
+    c
+}
+
 const BUILTIN: &str = include_str!("../../../corpus/C18/dhcp-d14-ack-before-request.case");
 const BUILTIN2: &str = include_str!("../../../corpus/C18/dhcp-d16-expiry-idle-poll.case");
 const BUILTIN3: &str = include_str!("../../../corpus/C18/dhcp-offer-from-unspecified.case");
@@ -1361,8 +1556,6 @@ fn main() {
         }
         "oracle" => {
             let mut rng = Rng::new(seed ^ 0xD4C9);
-            let mut fails = vec![];
-            let mut stats = BTreeMap::new();
             let mut cases: Vec<Case> = vec![];
             for txt in [BUILTIN, BUILTIN2, BUILTIN3, BUILTIN4, BUILTIN5, BUILTIN6] {
                 cases.extend(read_cases(&mut std::io::BufReader::new(txt.as_bytes())));
@@ -1371,32 +1564,13 @@ fn main() {
             for i in 0..n {
                 cases.push(gen_case(&mut rng, format!("o{}-{}", seed, i), &tier));
             }
-            // at most 2 failing cases are reported per class (FAILCASE block + FAIL line, in the same order)
-            let mut per_class: BTreeMap<String, usize> = BTreeMap::new();
-            for c in &cases {
-                let mut f1 = vec![];
-                oracle_case(c, &mut f1, &mut stats);
-                let mut seen: Vec<String> = vec![];
-                for f in f1 {
-                    let cls = f.split("::").next().unwrap().trim().to_string();
-                    if seen.contains(&cls) {
-                        continue;
-                    }
-                    seen.push(cls.clone());
-                    let n = per_class.entry(cls).or_default();
-                    *n += 1;
-                    if *n <= 2 {
-                        writeln!(out, "FAILCASE").unwrap();
-                        c.write(&mut out);
-                        fails.push(f);
-                    }
-                }
-            }
-            for f in &fails {
-                writeln!(out, "FAIL {}", f).unwrap();
-            }
-            let st: Vec<String> = stats.iter().map(|(k, v)| format!("{}:{}", jstr(k), v)).collect();
-            writeln!(out, "STATS {{\"cases\":{},\"builtin_witnesses\":{},{}}}", cases.len(), nb, st.join(",")).unwrap();
+            report_oracle(&cases, nb, &mut out);
+        }
+        "oracle-coexist" => {
+            // implementation-side only: a UDP socket in front of the DHCP socket, limited device tx budget around expiry
+            let mut rng = Rng::new(seed ^ 0xC0E5);
+            let cases: Vec<Case> = (0..n).map(|i| gen_coexist(&mut rng, format!("x{}-{}", seed, i))).collect();
+            report_oracle(&cases, 0, &mut out);
         }
         "oracle-replay" => {
             let mut fails = vec![];
